@@ -130,10 +130,13 @@ impl RelatedEntities {
         );
 
         // Remove all matching edges of this type.
+        // The graph is undirected, so also check the stored direction:
+        // a relation from `target` to `source` of the same type is a different relation.
         self.remove_buffer.extend(
             self.graph
                 .edges_connecting(source_node, target_node)
                 .filter(|e| *e.weight() == type_id)
+                .filter(|e| self.graph.edge_endpoints(e.id()) == Some((source_node, target_node)))
                 .map(|e| e.id()),
         );
 
